@@ -162,13 +162,28 @@ pub fn run(args: &Args) {
     }
     let nflips = args.num("flips", 400);
     let wd = gen_::Workdir::new("c02");
-    for key in gen_::KEYS {
+    // carriers: per key a small package, and (two keys; all keys in the thorough tier) one whose main header is
+    // several tens of KiB - larger than any I/O buffer a verifier might read it through
+    let mut carriers: Vec<(&str, bool)> = gen_::KEYS.iter().map(|k| (*k, false)).collect();
+    for (i, k) in gen_::KEYS.iter().enumerate() {
+        if args.thorough() || i % 2 == 0 { carriers.push((*k, true)); }
+    }
+    for (key, big) in carriers {
         let mut cfg = gen_::rand_cfg(&mut rng, 0, 0);
         let mut used = vec![];
         cfg.files = vec![gen_::rand_file(&mut rng, &mut used, 200)];
         cfg.files[0].len = 150;
         cfg.files[0].mode = Some(0o100644);
         cfg.files[0].link = None;
+        if big {
+            for k in 0..(160 + rng.below(80)) {
+                let mut f = gen_::rand_file(&mut rng, &mut used, 8);
+                f.dest = format!("/usr/share/verif-big/{}/{}/entry-{k:04}.dat", "s".repeat(1 + (k % 37) as usize), k % 5);
+                f.link = None;
+                f.mode = Some(0o100644);
+                cfg.files.push(f);
+            }
+        }
         cfg.compression = Some(("none".into(), None));
         cfg.signer = Some(key.to_string());
         let pkg = match guarded(|| gen_::build(&cfg, &wd)) {
@@ -176,12 +191,12 @@ pub fn run(args: &Args) {
             _ => { t.emit(json!({"event":"Panic","op":"build_and_sign","key":key})); continue; }
         };
         let mut base = vec![];
-        pkg.write(&mut base).unwrap();
+        pkg.write(&mut Plain(&mut base)).unwrap();
         let orig = Package::parse(&mut &base[..]).unwrap();
         let lay = rawhdr::layout(&base).unwrap();
         // the untouched package verifies (otherwise nothing below means anything)
         let mut e = verify_real(&base, &orig, key);
-        e["event"] = json!("Tampered"); e["key"] = json!(key); e["what"] = json!("untouched");
+        e["event"] = json!("Tampered"); e["key"] = json!(key); e["what"] = json!(if big { "untouched (large header)" } else { "untouched" });
         e["ep_start"] = json!(true);
         let untouched_ok = e["verify"] == "ok";
         t.emit(e);
